@@ -174,7 +174,7 @@ func modelCases2(c *ctx) {
 	r := c.r
 	n := r.Pick(120, 1500)
 	for k := 0; k < n; k++ {
-		g := &gen{r: common.NewRand(r.Rnd.Uint64())}
+		g := &gen{r: common.NewRand(c.rnd.Uint64())}
 		r.Mark("case model2 %d", k)
 		// blocklist item
 		{
@@ -459,7 +459,7 @@ func modelCases2(c *ctx) {
 	}
 	// pubsub payloads: what Publish / Delete put on the wire (inside the <iq/>)
 	for k := 0; k < r.Pick(25, 200); k++ {
-		g := &gen{r: common.NewRand(r.Rnd.Uint64())}
+		g := &gen{r: common.NewRand(c.rnd.Uint64())}
 		node, id, text := g.text(), g.opt(), g.text()
 		if !xmlValid(node) || !xmlValid(id) || !xmlValid(text) {
 			continue
